@@ -136,8 +136,9 @@ def check(cx):
                 ls.append(l)
         return ls[0] if len(ls) == 1 else None
 
-    effs = effects(w, prog, roots=(CHANOBJ,))
-    effs = [(e, x) for e, x in effs if x['op'] not in ('take', 'get_mut')]
+    effs_all = effects(w, prog, roots=(CHANOBJ,))
+    effs = [(e, x) for e, x in effs_all if x['op'] not in ('take', 'get_mut')]
+    takes = [(e, x) for e, x in effs_all if x['op'] == 'take']
     locs = _announce_view(w, mchar, all_letters)
 
     r2 = cx.rule('R8.2', 'per-letter privilege guards every effect', floor=28, kind='required-guard')
@@ -249,6 +250,21 @@ def check(cx):
         for a in atoms(e.pc):
             if not (a[0] == 'empty' or a == ('is', ('get', field(CHANOBJ, 'users'), mk), 'Some')):
                 r6.violation('process_mode_channel|announcement-guard', 'MODE announcement depends on %s' % show_term(a), loc=cx.loc(e.node))
+
+    # a list taken out of the channel (`modes.ban.take()`) is a change of the channel unless it is put back on every path: it needs
+    # the privilege of its letter, or a restoring assignment whatever happens afterwards
+    for e, x in takes:
+        L = letter_of(e.pc)
+        r2.instance('take of %s' % show_term(x['place'])[-40:])
+        if L is None or L not in PRIV:
+            continue
+        guarded = entails(e.pc, privf[PRIV[L]])[0]
+        restores = [a.pc for a, y in effs if y['op'] == 'assign' and y['place'] == x['place'] and a.seq > e.seq]
+        restored = bool(restores) and entails(e.pc, Or(*restores))[0]
+        if not guarded and not restored:
+            r2.violation('process_mode_channel|take-without-restore|%s' % L, "the %s list is taken out of the channel before the privilege check "
+                         "of mode '%s' and not put back when the change is refused: a refused MODE empties the list"
+                         % (path_of(x['place'])[-1], L), loc=cx.loc(e.node))
 
     # ---------------------------------------------------------------- R8.5 refusals
     r5 = cx.rule('R8.5', '482 for every privileged letter without privilege', floor=15, kind='emission')
